@@ -16,7 +16,7 @@ func buildProperties() []Property {
 		},
 		{
 			ID: "C06", Title: "Text written by writeq/write_canonical reads back as the same term",
-			Decides:    "agreement of the writer's and the reader's tables and exactness of the number paths: every escape the writer can emit is accepted by the lexer class, matched by the reader's pattern and mapped back to the same character; quote, backslash and control characters always trigger escaping; floats are written with the shortest round-tripping representation and read by one correctly rounding conversion; write_term/3 and read_term/3 use the VM's one operator table. The write options are extended copy-on-write: a map reached through an options struct received by value is never updated in place. Integer and Float agree on blanks and parentheses next to operators (zero and negative zero included); a character is written verbatim inside quotes only if the lexer's own predicate accepts it; the functor of functional notation is written without an operator table; only the token `_` is anonymous; the reader produces no infinite Float.",
+			Decides:    "agreement of the writer's and the reader's tables and exactness of the number paths: every escape the writer can emit is accepted by the lexer class, matched by the reader's pattern and mapped back to the same character; quote, backslash and control characters always trigger escaping; floats are written with the shortest round-tripping representation and read by one correctly rounding conversion; write_term/3 and read_term/3 use the VM's one operator table. The write options are extended copy-on-write: a map reached through an options struct received by value is never updated in place. Integer and Float agree on blanks and parentheses next to operators (zero and negative zero included); a character is written verbatim inside quotes only if the lexer's own predicate accepts it; the functor of functional notation is written without an operator table; only the token `_` is anonymous; the reader produces no infinite Float; the sign of an integer literal reaches its range test; a token continues as valid after a numeric escape only if utf8.ValidRune accepted the value of the escape (so the escape writeq emits for U+FFFD reads back, and an escape that denotes no character is refused in every kind of token).",
 			NotDecided: "bracketing/spacing correctness for operator contexts - the heart of the round trip - which depends on pairs (context operator, operand) over all tables.",
 			Rules: []RuleDef{
 				{"R-INT-LITERAL-SIGNED", 1, ruleIntLiteralSigned},
@@ -35,7 +35,7 @@ func buildProperties() []Property {
 		},
 		{
 			ID: "C16", Title: "Relational built-ins enumerate exactly their relation in every call mode",
-			Decides:    "the clause 'text measured in characters, not bytes': in the atom-processing builtins (resolved from the registration calls) a string obtained from an atom is measured and indexed only through []rune or range offsets; its byte length feeds only capacities and zero tests; it is sliced only at offsets produced by ranging over the same string. Every built-in inspects the dynamic type of an argument only after resolving it (mode discrimination is made on the resolved term); no cutset-taking strings function is given computed text. A Prolog integer is bounded inside the range of the narrow Go type before it is converted (character codes, bytes).",
+			Decides:    "the clause 'text measured in characters, not bytes': in the atom-processing builtins (resolved from the registration calls) a string obtained from an atom is measured and indexed only through []rune or range offsets; its byte length feeds only capacities and zero tests; it is sliced only at offsets produced by ranging over the same string. Every built-in inspects the dynamic type of an argument only after resolving it (mode discrimination is made on the resolved term); no cutset-taking strings function is given computed text. A Prolog integer is bounded inside the range of the narrow Go type before it is converted (character codes, bytes), and a code becomes text only after utf8.ValidRune accepted it (char_code/2, atom_codes/2 and number_codes/2 agree: surrogate halves are refused).",
 			NotDecided: "completeness and exactly-once enumeration in every mode - behavioural.",
 			Rules: []RuleDef{
 				{"R-ATOM-CANONICAL", 1, ruleAtomCanonical},
@@ -111,7 +111,7 @@ func buildProperties() []Property {
 		},
 		{
 			ID: "C15", Title: "Go values cross the API as data: placeholders = literals, Scan exact or error",
-			Decides:    "every narrowing conversion of an answer value in Scan is guarded by an exactness/range test with an error edge (sizes from the analysed build, thorough tier repeats with 32-bit int); placeholder arguments never flow into a reader, lexer or parser constructor (they enter the grammar only as finished terms); a term is returned only when the argument queue is empty and the queue is indexed only when non-empty. The destination of each element conversion into a slice is computed per element inside the loop. An unsigned 64-bit Go integer is converted to Integer only under a bound; left-over placeholder arguments are reported by Term outside text mode and by the loader at the end of a text; reflect.Value.Interface is applied to struct fields only when they are exported.",
+			Decides:    "every narrowing conversion of an answer value in Scan is guarded by an exactness/range test with an error edge (sizes from the analysed build, thorough tier repeats with 32-bit int); placeholder arguments never flow into a reader, lexer or parser constructor (they enter the grammar only as finished terms); a term is returned only when the argument queue is empty and the queue is indexed only when non-empty. The destination of each element conversion into a slice is computed per element inside the loop. An unsigned 64-bit Go integer is converted to Integer only under a bound; left-over placeholder arguments are reported by Term outside text mode and by the loader at the end of a text; reflect.Value.Interface is applied to struct fields only when they are exported, Addr only to fields of an addressable struct, SetMapIndex only to a non-nil map; every typed Scan helper overwrites its destination on every path without error; placeholders and literals are converted under the same double_quotes value (arguments are converted where the placeholder stands; eager conversion would be accepted only if the flag of an existing parser never changed); a float placeholder is finite.",
 			NotDecided: "that termOf(v) equals the literal denoting v under every double_quotes setting.",
 			Rules: []RuleDef{
 				{"R-FLOAT-FINITE", 2, ruleFloatFinite},
@@ -177,7 +177,7 @@ func buildProperties() []Property {
 		},
 		{
 			ID: "C20", Title: "Loading defines clauses in source order; a failed load defines nothing",
-			Decides:    "every write of the loader to the live database is dominated by the success edges of both staging steps and the commit loop has no early return; nothing statically reachable from the staging steps (short of a nested load) writes the live database. Every iteration of the commit loop writes the predicate to the database; ensure_loaded/1 un-marks the file on every error exit. The parser says \"no more clauses\" only when no part of a token has been accepted.",
+			Decides:    "every write of the loader to the live database is dominated by the success edges of both staging steps and the commit loop has no early return; nothing statically reachable from the staging steps (short of a nested load) writes the live database. Every iteration of the commit loop writes the predicate to the database; ensure_loaded/1 un-marks the file on every error exit. The parser says \"no more clauses\" only when no part of a token has been accepted; whatever the parser copies by value from the VM (double_quotes) is refreshed before each clause, so a directive that sets it governs the rest of the text; the discontiguity test does not depend on other declarations of the predicate.",
 			NotDecided: "source order, multifile/discontiguous semantics, effects of directives executed during a load that later fails (by design they run at once).",
 			Rules: []RuleDef{
 				{"R-DISCONTIGUOUS-INDEP", 1, ruleDiscontiguousIndep},
